@@ -34,7 +34,7 @@ ASSUMPTIONS = [
     'FIFO ready queue; requests are placed between loop handles, not inside listener callbacks (as quantified)',
     'callbacks scheduled by steps do not fail (a failing callback legitimately ends the run at a schedule-dependent point)',
 ]
-EXPECTED_COUNTERS = ['kind:workchain', 'probe:pause_mid_step', 'probe:play_while_pause_pending', 'probe:pause_in_waiting_step',
+EXPECTED_COUNTERS = ['probe:pause_from_played_notification', 'kind:workchain', 'probe:pause_mid_step', 'probe:play_while_pause_pending', 'probe:pause_in_waiting_step',
                      'probe:resume_while_paused', 'probe:pause_then_play_same_position']
 KINDS = ['pause', 'play', 'resume']
 PROGRAM_CFG = {
